@@ -4,8 +4,8 @@
    consume-direct, docs); what the process opens besides the fetcher is a statement about system calls and is
    monitored (audit hooks), not proved. *)
 From Coq Require Import List String Bool Arith ZArith Permutation.
-Require Import WV.model.C20Url WV.model.C20Fetch WV.model.C20Doc.
-Require Import WV.proofs.C20_url WV.proofs.C20_fetch WV.proofs.C20_doc WV.proofs.C20_absence WV.proofs.C20_logged.
+Require Import WV.model.C20Url WV.model.C20Fetch WV.model.C20Doc WV.model.C20Cache.
+Require Import WV.proofs.C20_url WV.proofs.C20_fetch WV.proofs.C20_doc WV.proofs.C20_absence WV.proofs.C20_logged WV.proofs.C20_cache.
 Import ListNotations.
 Open Scope string_scope.
 Open Scope list_scope.
@@ -177,3 +177,49 @@ Theorem C20_failures_are_logged W fails c0 d : cache_ok W fails c0 ->
                exists lv, In (Log lv u) (snd (m_doc W fails c0 d)).
 Proof. exact (failures_are_logged W fails c0 d). Qed.
 Print Assumptions C20_failures_are_logged.
+
+(* ---- 4. option cache=<folder>: document.DiskCache (memory layer + files) refines a dict ---- *)
+
+(* get after set returns the stored value, None (a failed image) included *)
+Theorem C20_diskcache_get_after_set digest s k v :
+  (is_bytes v = true -> afind (dc_mem s) k = None) -> dc_get digest (dc_set digest s k v) k = Some v.
+Proof. exact (dc_get_after_set digest s k v). Qed.
+Print Assumptions C20_diskcache_get_after_set.
+
+Theorem C20_diskcache_stored_none_is_present digest s k :
+  dc_get digest (dc_set digest s k (VObj None)) k = Some (VObj None) /\
+  dc_contains digest (dc_set digest s k (VObj None)) k = true.
+Proof. exact (conj (dc_get_after_set_none digest s k) (dc_contains_after_set digest s k (VObj None))). Qed.
+Print Assumptions C20_diskcache_stored_none_is_present.
+
+(* a key never set is absent: in a fresh cache, and after any operations on other keys, reopening included *)
+Theorem C20_diskcache_never_set_absent digest k ops : never_sets digest k ops ->
+  dc_get digest (snd (dc_run digest dc_empty ops)) k = None.
+Proof. exact (fun H => dc_never_set_absent digest k ops H dc_empty eq_refl). Qed.
+Print Assumptions C20_diskcache_never_set_absent.
+
+(* under the callers' discipline (a key holds bytes or objects, never both) and distinct file names, every
+   sequence of set / get / in on a DiskCache observes what the same sequence observes on a dict *)
+Theorem C20_diskcache_refines_dict digest bytes_key ops :
+  (forall a b, digest a = digest b -> a = b) -> disciplined bytes_key ops ->
+  fst (dc_run digest dc_empty ops) = fst (dict_run [] ops).
+Proof.
+  exact (fun Hinj Hd => diskcache_refines_dict digest bytes_key Hinj ops Hd dc_empty [] (Inv_empty digest bytes_key)).
+Qed.
+Print Assumptions C20_diskcache_refines_dict.
+
+(* outside that discipline the refinement fails: a bytes value under a key that holds an object is shadowed *)
+Theorem C20_diskcache_stale_object_refuted :
+  exists (s : dcache) k v, dc_get (fun x => x) (dc_set (fun x => x) s k v) k <> Some v.
+Proof. exact dc_get_after_set_stale_refuted. Qed.
+Print Assumptions C20_diskcache_stale_object_refuted.
+
+(* the image cache of the state machine kept in a DiskCache answers like the machine's association list *)
+Theorem C20_diskcache_is_image_cache digest (c : cache) disk u :
+  afind disk (digest u) = None ->
+  let s := {| dc_mem := mem_of c; dc_disk := disk |} in
+  option_map loaded_of (dc_get digest s u) = cfind c u /\
+  dc_contains digest s u = is_some (cfind c u) /\
+  forall ok, dc_mem (dc_set digest s u (obj_of ok)) = mem_of ((u, ok) :: c).
+Proof. exact (diskcache_is_image_cache digest c disk u). Qed.
+Print Assumptions C20_diskcache_is_image_cache.
